@@ -1,5 +1,5 @@
 (* C01 — formatting preserves the syntax tree. Statements, `exact` proofs, pins, assumption reports. *)
-From TV Require Import Conv Format Render RenderProofs SeqProofs ConvProofs ParenProofs MarkupProofs MathProofs Post.
+From TV Require Import Conv Format Render RenderProofs SeqProofs ConvProofs ParenProofs MarkupProofs MathProofs Post FlowProofs ListProofs.
 
 (* The full property mentions re-parsing; the parser is outside the model (DESIGN.md section 3), so the
    full statement is given over an abstract parser and an abstract skeleton. It is NOT proved: what is
@@ -68,3 +68,59 @@ Definition ex_call : tree :=
 Example C01_example :
   exists n, format_source (fun s => N.of_nat (length s)) CliGen.cfg_default ex_call = FOk [35;102;40;49;44;32;50;41;10] n.
 Proof. eexists. vm_compute. reflexivity. Qed.
+
+(* the flow stylist (about 25 converters are built on it: let, set, show, for, while, closure, named, keyed, spread,
+   unary, heading, list items, math attach/frac/root, import items ...) conserves what it is handed: whatever branch
+   of a flat_alt is taken, the atoms of its document are exactly the atoms of the documents pushed for the children,
+   in child order, with nothing but blanks and line breaks between them; and what is pushed for a child is the
+   keyword's own text, the comment's document, the hash, or what the converter's producer returned for that child *)
+Theorem C01_flow_stylist_conserves :
+  forall swidth S (c : ctx) children (s0 : S) producer n d n' x,
+    flow_like_iter swidth c children s0 producer n = Ok (d, n') -> seqs d x ->
+    exists ops xs, Forall2 (op_for swidth producer) children ops /\ Forall2 seqs (map fop_doc ops) xs /\
+                   solid x = solid (concat xs).
+Proof. exact flow_like_iter_conserves. Qed.
+Check C01_flow_stylist_conserves :
+  forall swidth S (c : ctx) children (s0 : S) producer n d n' x,
+    flow_like_iter swidth c children s0 producer n = Ok (d, n') -> seqs d x ->
+    exists ops xs, Forall2 (op_for swidth producer) children ops /\ Forall2 seqs (map fop_doc ops) xs /\
+                   solid x = solid (concat xs).
+Print Assumptions C01_flow_stylist_conserves.
+
+(* the same for the plain stylist (table-like argument lists) *)
+Theorem C01_plain_stylist_conserves :
+  forall swidth items ml x,
+    seqs (plain_print_doc swidth items ml) x ->
+    exists xs, Forall2 seqs (map fop_doc (map (plain_op swidth) items)) xs /\ solid x = solid (concat xs).
+Proof. exact plain_print_conserves. Qed.
+Print Assumptions C01_plain_stylist_conserves.
+
+(* the list stylist (array, dict, arguments, parameters, destructuring, parenthesized, code block, import items,
+   equation): from an empty stylist, the printed list has exactly the atoms of what was pushed for the nodes --
+   the item document the converter's checker returned, the comment's document, a re-emitted hash -- in node order,
+   with only blanks, line breaks and the style's own separator and delimiters between them, whatever the fold
+   style, the list style and the branch taken at each flat_alt *)
+Theorem C01_list_stylist_conserves :
+  forall swidth cfg (l0 : lst) (c : ctx) nodes checker n l' n' sty x,
+    l_items l0 = [] -> l_free l0 = [] ->
+    lst_process swidth l0 c nodes checker n = Ok (l', n') ->
+    seqs (lst_doc swidth cfg l' sty) x ->
+    exists ops xs, Forall2 (lop_for swidth checker) nodes ops /\
+                   Forall2 seqs (pushed_by swidth l0 ops) xs /\ kept sty x = kept sty (concat xs).
+Proof. exact lst_process_conserves. Qed.
+Print Assumptions C01_list_stylist_conserves.
+
+(* the chain stylist's printer (dot chains, binary chains): bodies, operators and comments reach the document in
+   chain order; the side condition holds of every chain the builder produces *)
+Theorem C01_chain_printer_conserves :
+  forall swidth tab (c : chain) (csty : chain_style) d x,
+    attached_ok false (ch_items c) = true ->
+    chain_print_doc swidth tab c csty = Ok d -> seqs d x ->
+    exists xs, Forall2 seqs (flat_map chain_item_docs (ch_items c)) xs /\ kept sty0 x = kept sty0 (concat xs).
+Proof. exact chain_print_conserves. Qed.
+Theorem C01_chain_builder_attaches_after_a_body :
+  forall swidth S c nodes (s0 : S) pred opc rhs fb n ch n',
+    chain_process swidth c nodes s0 pred opc rhs fb n = Ok (ch, n') -> attached_ok false (ch_items ch) = true.
+Proof. intros swidth S c nodes s0 pred opc rhs fb n ch n' H. exact (chain_process_attached_ok swidth c nodes s0 pred opc rhs fb n ch n' H). Qed.
+Print Assumptions C01_chain_printer_conserves.
+Print Assumptions C01_chain_builder_attaches_after_a_body.
